@@ -417,9 +417,42 @@ impl Names {
     }
 }
 
+/// one `Ledger::balance` call with a date range (C04)
+#[derive(Clone, Debug, PartialEq)]
+pub struct QueryObs {
+    pub start: Option<i32>,
+    pub end: Option<i32>,
+    pub result: Vec<(usize, AmountObs)>,
+    pub error: Option<String>,
+}
+
+/// what the report queries returned on an accepted ledger (C04)
+#[derive(Clone, Debug, PartialEq, Default)]
+pub struct ReportObs {
+    pub queries: Vec<QueryObs>,
+    /// account, amount, running total: `Ledger::postings` accumulated as RegisterCmd does
+    pub register: Vec<(usize, AmountObs, AmountObs)>,
+}
+
+pub fn day_to_date(d: i32) -> chrono::NaiveDate {
+    chrono::NaiveDate::from_ymd_opt(2020, 1, 1).unwrap() + chrono::Duration::days(d as i64)
+}
+
 /// Run report::process on an in-memory file tree; root is /main.ledger.
 pub fn run_process(files: &[(String, String)], names: &Names, r: Option<&Rendered>) -> Obs {
+    run_process_ext(files, names, r, None).0
+}
+
+/// As `run_process`; on success additionally asks `Ledger::balance` for every given
+/// (start, end) pair and lists `Ledger::postings` with the running total of `okane register`.
+pub fn run_process_ext(
+    files: &[(String, String)],
+    names: &Names,
+    r: Option<&Rendered>,
+    ranges: Option<&[(Option<i32>, Option<i32>)]>,
+) -> (Obs, Option<ReportObs>) {
     let res = std::panic::catch_unwind(|| {
+        let mut report_obs: Option<ReportObs> = None;
         let arena = bumpalo::Bump::new();
         let mut ctx = report::ReportContext::new(&arena);
         let mut map: HashMap<PathBuf, Vec<u8>> = HashMap::new();
@@ -457,6 +490,37 @@ pub fn run_process(files: &[(String, String)], names: &Names, r: Option<&Rendere
                     .iter()
                     .map(|(a, am)| (comm_id(a.as_str(), &names.accounts), amount_obs(am, &names.commodities)))
                     .collect();
+                if let Some(ranges) = ranges {
+                    let mut ro = ReportObs::default();
+                    for (s, e) in ranges {
+                        let q = report::query::BalanceQuery {
+                            conversion: None,
+                            date_range: report::query::DateRange { start: s.map(day_to_date), end: e.map(day_to_date) },
+                        };
+                        let (result, error) = match ledger.balance(&ctx, &q) {
+                            Ok(b) => (
+                                b.into_owned()
+                                    .into_vec()
+                                    .iter()
+                                    .map(|(a, am)| (comm_id(a.as_str(), &names.accounts), amount_obs(am, &names.commodities)))
+                                    .collect(),
+                                None,
+                            ),
+                            Err(err) => (Vec::new(), Some(format!("{:?}", err))),
+                        };
+                        ro.queries.push(QueryObs { start: *s, end: *e, result, error });
+                    }
+                    let mut total = report::Amount::default();
+                    for p in ledger.postings(&ctx, &report::query::PostingQuery { account: None }) {
+                        total += p.amount.clone();
+                        ro.register.push((
+                            comm_id(p.account.as_str(), &names.accounts),
+                            amount_obs(&p.amount, &names.commodities),
+                            amount_obs(&total, &names.commodities),
+                        ));
+                    }
+                    report_obs = Some(ro);
+                }
                 Obs::Ok { txns, balance }
             }
             Err(report::ReportError::BookKeep(b, ectx)) => {
@@ -504,15 +568,18 @@ pub fn run_process(files: &[(String, String)], names: &Names, r: Option<&Rendere
                 Obs::Err { entry: 9999, err: ErrObs::Other(d.clone()), text: d }
             }
         };
-        obs
+        (obs, report_obs)
     });
     match res {
         Ok(o) => o,
-        Err(p) => Obs::Panic(
-            p.downcast_ref::<String>()
-                .cloned()
-                .or_else(|| p.downcast_ref::<&str>().map(|s| s.to_string()))
-                .unwrap_or_default(),
+        Err(p) => (
+            Obs::Panic(
+                p.downcast_ref::<String>()
+                    .cloned()
+                    .or_else(|| p.downcast_ref::<&str>().map(|s| s.to_string()))
+                    .unwrap_or_default(),
+            ),
+            None,
         ),
     }
 }
